@@ -170,6 +170,21 @@ func run(c Case) *h.Result {
 		res.Err = fmt.Sprintf("program evaluated a second time in the same session:\n%s\n  expected value %s\n  got %s\n  expected trace: %s\n  got trace:      %s", c.Prog, showVals(want2.Vals), got2, want2.Trace, gotTrace2)
 		return res
 	}
+	// the same code objects (read once) evaluated twice: the first evaluation compiles argument slots in place, the
+	// second one runs what the first one left behind, and must give the same results again
+	if code, o := ev.ReadForms(scope, c.Prog); o.Kind == ev.Value {
+		for k := 1; k <= 2; k++ {
+			m.Trace = nil
+			wantK := m.Run(forms)
+			ev.ResetTrace()
+			gotK := ev.EvalObjects(scope, code)
+			gotTraceK := ev.TraceString()
+			if gotK.Kind != ev.Value || showVals(wantK.Vals) != show(gotK.Val) || wantK.Trace != gotTraceK {
+				res.Err = fmt.Sprintf("program read once, evaluation %d of the same code object:\n%s\n  expected value %s\n  got %s\n  expected trace: %s\n  got trace:      %s", k, c.Prog, showVals(wantK.Vals), gotK, wantK.Trace, gotTraceK)
+				return res
+			}
+		}
+	}
 	special := kinds["setq"] || kinds["lambda"] || kinds["dotimes"] || kinds["dolist"] || kinds["do"] || kinds["do*"] ||
 		kinds["multiple-value-bind"] || kinds["multiple-value-list"] || kinds["funcall"] || kinds["mapcar"]
 	res.NonTrivial = len(kinds) >= 3 && depth >= 3 && len(m.Trace) >= 2 && special
